@@ -93,7 +93,8 @@ def eval_isolated(requests, name, deadline=10.0, mem_gb=4, workers=None):
     n = len(requests)
     if n == 0:
         return []
-    workers = max(1, min(workers or vlib.NCPU, n))
+    # 12 rather than 16: a stalled request may hold up to `mem_gb` each
+    workers = max(1, min(workers or min(vlib.NCPU, 12), n))
     results = [None] * n
     lock = threading.Lock()
     ws = []
